@@ -110,7 +110,16 @@ def run_extractor():
     if rc != 0:
         return {"ran": False, "error": out[-2000:]}
     rc, out = run([exe, "-repo", REPO, "-out", os.path.join(LEAN, "IbcVerif", "Gen"), "-json", os.path.join(BUILD, "facts.json")], timeout=300)
-    return {"ran": rc == 0, "error": None if rc == 0 else out[-2000:]}
+    changed = []
+    try:
+        facts = json.load(open(os.path.join(BUILD, "facts.json")))
+        expected = json.load(open(os.path.join(VERIF, "checklib", "skeletons.json")))
+        for k, v in expected.items():
+            if facts.get("_skeletons", {}).get(k) != v:
+                changed.append(k)
+    except (OSError, ValueError):
+        pass
+    return {"ran": rc == 0, "error": None if rc == 0 else out[-2000:], "skeleton_changed": changed}
 
 
 def run_pre(pre):
